@@ -53,6 +53,9 @@ type gatherCfg struct {
 	// a rule without externals, which the rule documentation (and C19) describe
 	RewriteRaw []AddressRewriteRule `json:"rewrite_raw,omitempty"`
 	Depth        int      `json:"depth,omitempty"`
+	// NoFairCompletion: the configuration contains an exchange without a timeout of its own (a TLS handshake with a
+	// TURN server that never answers ends only when the cycle is cancelled): "eventually complete" is not claimed
+	NoFairCompletion bool `json:"no_fair_completion,omitempty"`
 	CloseErr     bool     `json:"close_err,omitempty"` // sockets and relayed connections report an error from Close (after closing)
 	Start        bool     `json:"start,omitempty"` // StartDial before the first event (needed for the Failed state)
 }
